@@ -13,6 +13,22 @@ LEVEL = "exploration"
 
 SYMS = ["a", "b", "foo", "list->vector", "x1", "set!", "+", "-", "...", "->", "<=?", "a.b", "!x", "-a", "$"]
 CHARS = list("aZ09(;)\"#\\|'.+ ") + ["x", "s", "t", "n"]
+KEYWORDS = ["quote", "quasiquote", "unquote", "lambda", "define", "if", "else", "=>", "_", "let", "quote"]
+INITIAL = "abcxyzKQ!$%&*/:<=>?^_~"
+SUBSEQ = INITIAL + "0123456789+-.@"
+
+
+def rand_symbol(rng):
+    """a plain symbol (no bars needed): ordinary, or peculiar - a sign or a dot followed by a sign-subsequent and any subsequents, digits included"""
+    c = rng.random()
+    if c < 0.2:
+        return rng.choice(KEYWORDS)
+    if c < 0.6:
+        return rng.choice(INITIAL) + "".join(rng.choice(SUBSEQ) for _ in range(rng.randint(0, 6)))
+    sign_subseq = INITIAL + "+-"
+    if c < 0.85:
+        return rng.choice("+-") + rng.choice(sign_subseq) + "".join(rng.choice(SUBSEQ) for _ in range(rng.randint(0, 5)))
+    return "." + rng.choice(sign_subseq.replace("+", "").replace("-", "") + ".") + "".join(rng.choice(SUBSEQ) for _ in range(rng.randint(0, 4)))
 
 
 def f32_values(rng, n):
@@ -57,7 +73,7 @@ class VG:
         if c < 0.45:
             return r.choice(self.nums)
         if c < 0.6:
-            return "'" + r.choice(SYMS)
+            return "'" + (r.choice(SYMS) if r.random() < 0.4 else rand_symbol(r))
         if c < 0.72:
             return "#\\" + r.choice(CHARS)
         if c < 0.8:
@@ -73,6 +89,11 @@ class VG:
             return self.atom()
         n = r.randint(0, width)
         items = [self.value(depth - 1, max(1, width - 2)) for _ in range(n)]
+        if items and r.random() < 0.12:
+            # lists, improper lists and vectors that look like abbreviable forms: (quote x), (quote x . y), (quote), (unquote x y)
+            items[0] = "'" + r.choice(["quote", "quote", "quasiquote", "unquote", "unquote-splicing"])
+            if r.random() < 0.6:
+                items = items[:2]
         if c < 0.55:
             return "(list %s)" % " ".join(items)
         if c < 0.7 and items:
@@ -166,7 +187,15 @@ def run(tier, seed):
             for e, s in zip(exprs[k:k + per], rec["steps"]):
                 kind, val = core.outcome(s)
                 if kind != "ok":
-                    ctx.count("construction_not_a_value"); continue
+                    ctx.count("construction_not_a_value")
+                    if isinstance(val, dict) and str(val.get("kind", "")).startswith("Syntax."):
+                        # every constructing expression is valid source built from literals of the readable subset (numbers, characters, quoted plain
+                        # symbols, whose printed text is the literal itself): a syntax error means such a text does not read back
+                        ctx.violation({"what": "the reader rejects the text of a value of the readable subset (a plain symbol or a number as display prints it)", "kind": "unreadable",
+                                       "expr": e[:300], "observed": val, "leg": leg, "dedupe": "unreadable|" + str(val.get("msg"))[:40]}, {"expr": e})
+                    if len(ctx.observed.setdefault("construction_failures_sample", [])) < 12:
+                        ctx.observed["construction_failures_sample"].append([e[:80], val.get("kind") if isinstance(val, dict) else kind])
+                    continue
                 c = canon(val)
                 if c is None:
                     ctx.count("outside_readable_subset"); continue
